@@ -914,6 +914,55 @@ func runShutdown(a *Analyzer, r *Results) {
 					leaves = l == nil || leavesLoop(armBlk, l, false) || leavesLoop(armBlk, l, true) // directly (return / break), or through the flag the loop condition tests
 				}
 				r.Check("Z1.exit", props("C16"), "the ctx.Done arm leaves the event loop", shortName(fn), a.P.InstrPos(in), leaves, "the ctx.Done arm continues the loop", "P")
+				// Z1.only: nothing but cancellation ends an event loop: no other arm returns, breaks out or sets the loop's
+				// exit flag (an error on some path must not take the whole node out of consensus)
+				{
+					whyOnly := ""
+					inArm := func(b *ssa.BasicBlock) bool { return b == armBlk || armBlk.Dominates(b) }
+					if l != nil {
+						for b := range l.Body {
+							if inArm(b) {
+								continue
+							}
+							for si, sx := range b.Succs {
+								_, panics := sx.Instrs[len(sx.Instrs)-1].(*ssa.Panic) // (the select's synthetic "no case matched")
+								if !l.Body[sx] && !inArm(sx) && !panics && b != l.Header {
+									_ = si
+									whyOnly = "the loop is left from " + a.P.InstrPos(b.Instrs[len(b.Instrs)-1]) + ", outside the ctx.Done arm"
+								}
+							}
+							if ret, isRet := b.Instrs[len(b.Instrs)-1].(*ssa.Return); isRet {
+								if !(lb.call != nil && lb.stepContinues(ret)) {
+									whyOnly = "return at " + a.P.InstrPos(ret) + " outside the ctx.Done arm"
+								}
+							}
+						}
+						// flag-controlled loop: the flag is set only in the ctx.Done arm
+						if hdrIf, isIf := l.Header.Instrs[len(l.Header.Instrs)-1].(*ssa.If); isIf {
+							if phi, isPhi := hdrIf.Cond.(*ssa.Phi); isPhi && phi.Block() == l.Header {
+								exitOnTrue := !l.Body[l.Header.Succs[0]]
+								for i, e := range phi.Edges {
+									pred := l.Header.Preds[i]
+									k, isK := e.(*ssa.Const)
+									if !l.Body[pred] || !isK || k.Value == nil || k.Value.Kind() != constant.Bool {
+										continue
+									}
+									if constant.BoolVal(k.Value) == exitOnTrue && !inArm(pred) {
+										whyOnly = "the loop's exit flag is set at " + a.P.InstrPos(pred.Instrs[len(pred.Instrs)-1]) + ", outside the ctx.Done arm"
+									}
+								}
+							}
+						}
+					} else if lb.call != nil {
+						// step method: only the ctx.Done arm may hand back the "stop" value
+						for _, b := range fn.Blocks {
+							if ret, isRet := b.Instrs[len(b.Instrs)-1].(*ssa.Return); isRet && !inArm(b) && !lb.stepContinues(ret) {
+								whyOnly = "the step method tells the loop to stop at " + a.P.InstrPos(ret) + ", outside the ctx.Done arm"
+							}
+						}
+					}
+					r.Check("Z1.only", props("C12", "C16", "C05"), "an event loop ends only through its ctx.Done arm: no other arm returns, breaks out of the loop or sets its exit flag (an error handled in the loop never stops the node)", shortName(fn), a.P.InstrPos(in), whyOnly == "", whyOnly, "P")
+				}
 				if isWorker {
 					// Z2: on the way out the current term is disposed -> ElectionScheduler.Stop
 					okStop := false
